@@ -3,6 +3,9 @@ from typing import cast
 
 
 class AddImplicitCastVisitor(Visitor.DefaultVisitor):
+    # Return type of the function which is being processed
+    __returnType = None
+
     def _GetTargetType(self, sourceType: types.Type, componentType: types.Type):
         assert isinstance(sourceType, types.PrimitiveType)
         assert isinstance(componentType, types.PrimitiveType)
@@ -14,6 +17,41 @@ class AddImplicitCastVisitor(Visitor.DefaultVisitor):
             # Must be a scalar
             assert isinstance(componentType, types.ScalarType)
             return componentType
+
+    def _ConvertTo(self, expression, targetType):
+        """Wrap an expression into an implicit cast if its type differs from
+        the target type in the component type only."""
+        sourceType = expression.GetType()
+        if (
+            sourceType.IsPrimitive()
+            and targetType.IsPrimitive()
+            and types.IsCompatible(targetType, sourceType)
+            and sourceType != targetType
+        ):
+            return ast.CastExpression(expression, targetType, True)
+
+        return expression
+
+    def v_VariableDeclaration(self, node, ctx=None):
+        # An initializer is converted to the type of the variable
+        if node.HasInitializerExpression():
+            self.v_Generic(node.GetInitializerExpression(), ctx)
+            node.SetInitializerExpression(
+                self._ConvertTo(node.GetInitializerExpression(), node.GetType())
+            )
+
+    def v_Function(self, node, ctx=None):
+        # A returned value is converted to the return type of the function
+        self.__returnType = node.GetType().GetReturnType()
+        node.AcceptVisitor(self, ctx)
+
+    def v_ReturnStatement(self, node, ctx=None):
+        if node.GetExpression():
+            self.v_Generic(node.GetExpression(), ctx)
+            if self.__returnType is not None:
+                node.SetExpression(
+                    self._ConvertTo(node.GetExpression(), self.__returnType)
+                )
 
     def v_ArrayExpression(self, node, ctx=None):
         assert isinstance(node, ast.ArrayExpression)
